@@ -144,6 +144,9 @@ func (v *Verifier) ghostBuiltin(fr *Frame, st *State, name string, x *ast.CallEx
 		v.needIntIdx(x.Pos(), name)
 		k := v.toIdx(v.coerce(v.evalSpec(fr, st, x.Args[1]), intT), x.Pos())
 		return Scalar{c.App("ghost$inByte", BVSort(8), id(x.Args[0]), k), types.Typ[types.Uint8]}, true
+	case "rlen": // rlen(rd): total number of bytes a bytes.Reader holds
+		v.needIntIdx(x.Pos(), name)
+		return Scalar{c.App("ghost$rdLen", IntSort, id(x.Args[0])), intT}, true
 	case "atomic": // atomic(p): current value of *atomic.Uint64 p
 		return Scalar{c.Select(v.ghostHeap(st, gAtomic), id(x.Args[0])), types.Typ[types.Uint64]}, true
 	}
